@@ -284,6 +284,43 @@ fn multiply_widening(out: &mut Out) {
     }
 }
 
+/// reshape of matrices of zero-sized elements whose element count is huge (up to usize::MAX): every
+/// target whose size differs — overflowing ones included — is SizeMismatch and changes nothing
+pub fn reshape_huge_zst(out: &mut Out) {
+    out.case("reshape huge zero-sized receivers");
+    out.nontrivial();
+    let m32 = 1usize << 32;
+    let receivers = [(1usize, usize::MAX), (usize::MAX, 1), (3, usize::MAX / 3), (m32, m32 - 1), (65536, 65537), (1, (isize::MAX as usize) + 1)];
+    for (r0, c0) in receivers {
+        for order in ORDERS {
+            let n = r0.checked_mul(c0).unwrap();
+            let targets = [(r0, c0), (c0, r0), (1, n), (n, 1), (n, 2), (2, n), (usize::MAX, 2), (usize::MAX, usize::MAX), (1usize << 63, 2), (m32, m32), (m32, m32 - 1), (n, 0), (0, 0), (n - 1, 1), (3, n / 3), (n / 3, 3), (5, 7)];
+            for (r, c) in targets {
+                let mut v: Vec<()> = Vec::new();
+                unsafe { v.set_len(n) };
+                let mut m = mk_from(order, r0, c0, v);
+                let op = format!("c08 zreshape {} {r0} {c0} {r} {c}", ord_ch(order));
+                out.announce(&op);
+                let res = catch(|| m.reshape((r, c)).map(|_| ()));
+                let same = (r as u128) * (c as u128) == n as u128;
+                let obs = match res {
+                    None => "panic".to_string(),
+                    Some(Err(e)) => {
+                        if (m.nrows(), m.ncols(), m.size(), m.order()) != (r0, c0, n, order) { out.oracle_fail(&format!("{op}: the failed reshape changed the matrix")); }
+                        format!("err {}", err_name(e))
+                    }
+                    Some(Ok(())) => format!("ok {} {} {}", m.nrows(), m.ncols(), m.size()),
+                };
+                let want = if same { format!("ok {r} {c} {n}") } else { "err SizeMismatch".to_string() };
+                if obs != want { out.oracle_fail(&format!("{op}: expected `{want}`, implementation gave `{obs}`")); }
+                if (m.nrows() as u128) * (m.ncols() as u128) != m.size() as u128 { out.oracle_fail(&format!("{op}: shape {}x{} disagrees with the element count {}", m.nrows(), m.ncols(), m.size())); }
+                out.count("reshape:huge-zero-sized");
+                out.observe(&obs);
+            }
+        }
+    }
+}
+
 /// mapping-style operations: source of zero-sized elements (any length exists), target `U`
 fn mapping<U: Default + Clone + Send + Sync + 'static>(out: &mut Out, es_out: usize) {
     assert_eq!(size_of::<U>(), es_out);
@@ -391,6 +428,7 @@ pub fn run_c08(out: &mut Out, _rng: &mut Rng, _tier: Tier) -> String {
     shape_taking::<[u64; 3]>(out, 24);
     multiply_numeric(out);
     multiply_widening(out);
+    reshape_huge_zst(out);
     mapping::<()>(out, 0);
     mapping::<u8>(out, 1);
     mapping::<u16>(out, 2);
